@@ -26,6 +26,9 @@ pub struct WsSpec {
     /// relative paths (or absolute, for out-of-workspace editables) of third-party files
     #[serde(default)]
     pub third_party_files: Vec<String>,
+    /// name of the workspace root directory itself (default "ws")
+    #[serde(default)]
+    pub root_name: Option<String>,
 }
 
 impl WsSpec {
@@ -40,7 +43,7 @@ impl WsSpec {
         for a in &self.ancestors {
             p.push(a);
         }
-        p.push("ws");
+        p.push(self.root_name.as_deref().unwrap_or("ws"));
         p
     }
     /// Write the tree.  Returns the workspace root.
@@ -100,6 +103,8 @@ pub struct WsOpts {
     pub self_dep_per_mille: u32,
     pub scopes: bool,
     pub dep_cycles: bool,
+    /// overrides (a fixture requesting its own name) may also live in imported helper modules
+    pub helper_self_dep_per_mille: u32,
     pub file: GenOpts,
 }
 
@@ -116,6 +121,7 @@ impl Default for WsOpts {
             self_dep_per_mille: 200,
             scopes: true,
             dep_cycles: false,
+            helper_self_dep_per_mille: 0,
             file: GenOpts { alias: false, assign_style: false, ..GenOpts::default() },
         }
     }
@@ -145,7 +151,7 @@ fn helper_module(rng: &mut Rng, dir: &str, k: usize, names: &[String], o: &WsOpt
     fo.max_tests = 0;
     fo.max_fixtures = 2;
     fo.marks = false;
-    fo.self_dep_per_mille = 0;
+    fo.self_dep_per_mille = o.helper_self_dep_per_mille;
     let mut items = gen_items(rng, names, false, &fo);
     if !items.iter().any(|i| matches!(i, Item::Fixture(_))) {
         items.push(Item::Fixture(Fx { func: rng.pick(names).clone(), ..Default::default() }));
@@ -220,6 +226,7 @@ pub fn gen_ws(rng: &mut Rng, o: &WsOpts) -> WsSpec {
             fo.max_tests = 0;
             fo.self_dep_per_mille = o.self_dep_per_mille;
             fo.scopes = o.scopes;
+            fo.dup_names = o.same_file_dups;
             let mut items = gen_items(rng, &names, false, &fo);
             items.retain(|i| !matches!(i, Item::Test(_)));
             let mut import_items = vec![];
